@@ -424,7 +424,7 @@ func (tk *tokenizer) consumeUrl(pos Pos) (Token, Token) {
 			default:
 				tk.pos += w
 				// http://drafts.csswg.org/csswg/css-syntax/#non-printable-character
-				if strings.ContainsRune(nonPrintable, c) {
+				if c == '\\' || strings.ContainsRune(nonPrintable, c) { // a backslash here is an invalid escape
 					goto badURL
 				}
 			}
